@@ -44,6 +44,7 @@ func runC04(c *core.Check) {
 	}
 	info := pk.TypesInfo
 	c.Trust("the source of github.com/qiniu/x (the version required by go.mod) in the module cache as the runtime range implementation")
+	c.Analysed("lower_field_kinds", lowerFieldsFor(c, map[string]bool{"RangeExpr": true, "ForPhraseStmt": true}, c04FieldDerived))
 	tfs := prog.FuncDecl("./cl", "toForStmt")
 	cre := prog.FuncDecl("./cl", "compileRangeExpr")
 	if tfs == nil || cre == nil {
@@ -390,3 +391,6 @@ func stmtOrExprStr(s ast.Stmt) string {
 	}
 	return ""
 }
+
+// c04FieldDerived: fields of RangeExpr / ForPhraseStmt the compiler deliberately does not read.
+var c04FieldDerived = map[string]string{}
